@@ -893,6 +893,61 @@ def poscar(case):
 
 # ---------------------------------------------------------------------------------------------
 
+
+# --------------------------------------------------------------------------
+# configurations: the same physical system dumped and loaded under a SEQUENCE of working-unit choices inside one
+# process (default -> nm/kg/ns/C -> default -> cm/g/s/C).  Whatever was dumped before, load(dump(system)) must return
+# the system: positions, velocities and charge are compared as physical quantities (angstrom, angstrom/ps, e).
+
+UNIT_SEQ = [dict(length='angstrom', mass='amu', energy='eV', charge='e'), dict(length='nm', mass='kg', time='ns', charge='C'),
+            dict(length='angstrom', mass='amu', energy='eV', charge='e'), dict(length='cm', mass='g', time='s', charge='C')]
+SEQ_FORMATS = [('atom_data', dict(atom_style='charge', units='metal')), ('atom_data', dict(atom_style='charge', units='real')),
+               ('atom_dump', dict(lammps_units='metal')), ('table', None)]
+
+
+@chk.clause('unit-sequence')
+def unit_sequence(case):
+    import atomman.unitconvert as uc
+    fmt, kw = SEQ_FORMATS[case['fmt']]
+    order = UNIT_SEQ[case['start']:] + UNIT_SEQ[:case['start']]
+    fails = []
+    vects_A = np.array([[4.0, 0, 0], [1.1, 5.0, 0], [-0.7, 0.9, 6.0]])
+    rel = np.array([[0.31, 0.47, 0.62], [0.05, 0.93, 0.5], [0.98, 0.02, 0.97]])
+    pos_A = rel @ vects_A
+    vel = np.array([[0.5, -1.0, 2.0], [1.5, 0.25, -0.75], [-2.0, 1.0, 0.5]])      # angstrom/ps
+    q = np.array([0.5, -1.0, 0.25])                                                 # e
+    try:
+        for step, cfg in enumerate(order):
+            uc.reset_units(**cfg)
+            L, V, Q = uc.set_in_units(1.0, 'angstrom'), uc.set_in_units(1.0, 'angstrom/ps'), uc.set_in_units(1.0, 'e')
+            s0 = am.System(atoms=am.Atoms(atype=[1, 2, 1], pos=pos_A * L, velocity=vel * V, charge=q * Q),
+                           box=am.Box(vects=vects_A * L), symbols=('Al', 'Ni'))
+            if fmt == 'table':
+                text, pi = s0.dump('table', prop_name=['atype', 'pos', 'velocity', 'charge'], table_name=['type', ['x', 'y', 'z'], ['vx', 'vy', 'vz'], 'q'],
+                                   unit=[None, 'angstrom', 'angstrom/ps', 'e'], float_format='%.13e', return_prop_info=True)
+                s1 = am.load('table', text, box=s0.box, symbols=('Al', 'Ni'), prop_info=pi)
+            elif fmt == 'atom_data':
+                text = s0.dump('atom_data', float_format='%.13e', return_info=False, **kw)
+                s1 = am.load('atom_data', text, symbols=('Al', 'Ni'), **kw)
+            else:
+                text = s0.dump('atom_dump', float_format='%.13e', **kw)
+                s1 = am.load('atom_dump', text, symbols=('Al', 'Ni'), **kw)
+            chk.note('unit-sequence-loads')
+            tag = 'step%d-%s' % (step, cfg['length'])
+            got = {'cell': np.array(s1.box.vects) / L, 'pos': np.array(s1.atoms.pos) / L, 'velocity': np.array(s1.atoms.velocity) / V,
+                   'charge': np.array(s1.atoms.charge) / Q}
+            exp = {'cell': vects_A, 'pos': pos_A, 'velocity': vel, 'charge': q}
+            for name in exp:
+                if np.shape(got[name]) != exp[name].shape or np.abs(got[name] - exp[name]).max() > 1e-9 * np.abs(exp[name]).max():
+                    fails.append(Fail(key='unit-sequence-%s-%s' % (fmt, name),
+                                      msg='%s (%s) dumped and loaded under working units %s as step %d of the sequence %s: %s comes back as %s, expected %s (physical units)'
+                                      % (fmt, kw, cfg, step, [c['length'] for c in order], name, np.asarray(got[name]).tolist(), exp[name].tolist())))
+            if fails:
+                return fails
+    finally:
+        C7.reset_units()
+    return fails
+
 def gen():
     for si, sd in enumerate(SYSDEFS):
         styles = C7.styles_for(sd)
@@ -931,11 +986,18 @@ def gen():
                             yield 'poscar', {'sys': si, 'style': ci, 'scale': bi, 'sym': yi, 'fmt': fi, 'header': hi}
 
 
+def gen_all():
+    yield from gen()
+    for f in range(len(SEQ_FORMATS)):
+        for st in range(len(UNIT_SEQ)):
+            yield 'unit-sequence', {'fmt': f, 'start': st}
+
+
 if __name__ == '__main__':
-    chk.run_cases(gen(), batch=8)
+    chk.run_cases(gen_all(), batch=8)
     N = chk.notes
     ev = sum(N.get(k, 0) for k in ('data-loads', 'data-perm-loads', 'data-text-loads', 'data-missing-rejected', 'dump-loads',
-                                   'dump-perm-loads', 'table-loads', 'poscar-loads'))
+                                   'dump-perm-loads', 'table-loads', 'poscar-loads', 'unit-sequence-loads'))
     nt = sum(N.get(k, 0) for k in ('data-loads-with-image-flags', 'data-loads-with-extended-box', 'data-perm-loads-nonidentity',
                                    'data-text-loads', 'data-missing-rejected', 'dump-loads-with-scaled-columns',
                                    'dump-loads-reordered-by-id', 'dump-perm-loads-nonidentity', 'table-loads-with-scaled-columns',
